@@ -2,3 +2,5 @@ import MimicProps.C18
 import MimicProps.C04
 import MimicProps.C11
 import MimicProps.C05
+import MimicProps.C06
+import MimicProps.C17
